@@ -129,6 +129,7 @@ fn main() {
             "shape" => suites::shape::replay(&body),
             "parse" => suites::parse::replay(&body),
             "grp" => suites::group::replay(&body),
+            "egs" => suites::group::replay_egs(&body),
             "eg" => suites::eg::replay(&body),
             "expl" => suites::expl::replay(&body),
             "mat" => suites::mat::replay(&body),
